@@ -21,6 +21,7 @@ import (
 	"pgregory.net/rapid"
 
 	"verif/internal/vf"
+	"verif/internal/yrun"
 )
 
 // Case is one program with cancellation points.
@@ -305,7 +306,7 @@ func total(c *Case) (int, string) {
 		}
 	})
 	res := s.start(context.Background(), c)
-	last, at := int64(-1), time.Now()
+	last, clock := int64(-1), yrun.NewStallClock()
 	for {
 		select {
 		case err := <-res:
@@ -315,8 +316,9 @@ func total(c *Case) (int, string) {
 			return int(s.ops.Load()), ""
 		case <-time.After(50 * time.Millisecond):
 			if v := s.ops.Load(); v != last {
-				last, at = v, time.Now()
-			} else if time.Since(at) > 20*time.Second {
+				last = v
+				clock.Reset()
+			} else if clock.Idle() > 20*time.Second {
 				return 0, "uncancelled run made no progress for 20 s"
 			}
 		}
